@@ -238,7 +238,7 @@ func runC02(c *core.Ctx) {
 	ruleReaderWidthTables(c, "C02.constructors")
 
 	// exact consumption rests on the contract of the retry loop and on its callers keeping it
-	c.Doc("C02.readn", "ReadN: nil only when complete, fragments accumulated at the right offset; every call passes the length of the buffer it fills", 10)
+	c.Doc("C02.readn", "ReadN: nil only when complete, fragments accumulated at the right offset; every call passes the length of the buffer it fills", 6)
 	ruleReadNComplete(c, "C02.readn")
 	ruleReadNCalls(c, newDecoderSet(c), "C02.readn")
 	// "consumes exactly the bytes the encoder produced": a value decoder that reads its
